@@ -1,4 +1,5 @@
 import TFV.Properties.Adapt
+import TFV.Properties.Src.ShadeParams
 #print axioms TFV.Adapt.C15_randc01_range
 #print axioms TFV.Adapt.C15_randc01_progress
 #print axioms TFV.Adapt.C15_randn01_range
@@ -14,3 +15,5 @@ import TFV.Properties.Adapt
 #print axioms TFV.Adapt.C15_mem_step
 #print axioms TFV.Adapt.C15_mem_invariant
 #print axioms TFV.Adapt.C15_archive
+#print axioms TFV.SrcTie.C15_src_shade_generate_F_CR
+#print axioms TFV.SrcTie.C15_src_shade_update_u_F
